@@ -482,10 +482,20 @@ func scenarioFor(to threadOps) *sched.Scenario {
 // returns and, once the receiver is closed, the watcher has exited.
 func pubsubScenario(extra []string) *sched.Scenario {
 	name := "pubsub-watcher[publish || Close"
+	resend := false
 	for _, x := range extra {
+		if x == "resend" {
+			// an option, not a thread: direct announcements are republished on
+			// the topic (which has no other subscriber here)
+			resend = true
+			continue
+		}
 		name += " || " + x
 	}
 	name += "]"
+	if resend {
+		name += "+resend"
+	}
 	return &sched.Scenario{
 		Name:     name,
 		MaxSteps: 3000,
@@ -504,7 +514,7 @@ func pubsubScenario(extra []string) *sched.Scenario {
 			if err != nil {
 				panic(err)
 			}
-			rc, err := announce.NewReceiver(h, "", announce.WithTopic(topic), announce.WithAllowPeer(func(peer.ID) bool { return true }))
+			rc, err := announce.NewReceiver(h, "", announce.WithTopic(topic), announce.WithAllowPeer(func(peer.ID) bool { return true }), announce.WithResend(resend))
 			if err != nil {
 				panic(err)
 			}
@@ -546,6 +556,8 @@ func pubsubScenario(extra []string) *sched.Scenario {
 							res = "err:" + err.Error()
 						case a.Cid.Equals(c1) && a.PeerID == from.ID:
 							res = "c1"
+						case a.Cid.Equals(c2) && a.PeerID == allowed:
+							res = "c2" // what a Direct thread announced
 						}
 						e.Log("%s ret Next = %s", tn, res)
 					}})
@@ -585,6 +597,10 @@ func pubsubScenario(extra []string) *sched.Scenario {
 		},
 		Check: func(e *sched.Exec) []sched.Finding {
 			var out []sched.Finding
+			hasDirect := false
+			for _, x := range extra {
+				hasDirect = hasDirect || x == "Direct"
+			}
 			for _, p := range e.Panics {
 				out = append(out, sched.Finding{Sig: "pubsub:panic", Msg: firstLine(p)})
 			}
@@ -601,7 +617,7 @@ func pubsubScenario(extra []string) *sched.Scenario {
 				out = append(out, sched.Finding{Sig: "pubsub:later-call-never-returns", Msg: fmt.Sprintf("after all explored calls had returned, these further calls never return: %v", e.CleanupHung)})
 			}
 			for _, o := range e.Obs() {
-				if strings.Contains(o, "ret Next = ") && !strings.HasSuffix(o, "= c1") && !strings.HasSuffix(o, "= ErrClosed") {
+				if strings.Contains(o, "ret Next = ") && !strings.HasSuffix(o, "= c1") && !strings.HasSuffix(o, "= ErrClosed") && !(hasDirect && strings.HasSuffix(o, "= c2")) {
 					out = append(out, sched.Finding{Sig: "pubsub:wrong-result", Msg: o})
 				}
 				if strings.Contains(o, "ret Direct = ") && !strings.HasSuffix(o, "= nil") && !strings.HasSuffix(o, "= ErrClosed") {
@@ -628,7 +644,7 @@ func pubsubScenario(extra []string) *sched.Scenario {
 func TestCheck(t *testing.T) {
 	r := vp.New("C16", "model_checking",
 		"(H) every sequence of <= N operations over {Close, Direct(c1), Direct(c2), Direct(c1) from a denied peer, Next, UncacheCid(c1)}, each operation started in its own goroutine in a synctest bubble and observed at quiescence as returned(value) / blocked, compared after every step with a reference model of the receiver (closed flag, one-slot queue, duplicate set, blocked callers); (S) every set of 2 threads x 1-2 operations and 3 threads x 1 operation containing at least one Close (3 threads x <=2 operations in the thorough tier), all interleavings at the scheduling points of the instrumented announce package up to the preemption bound. states = distinct decision states / sequences; transitions = scheduling steps / operations; traces = executions of the real receiver.",
-		"(H) and (S): receiver without pubsub (nil host); (P): the receiver with a gossipsub topic on one transport-less libp2p host, a thread publishing one announcement, so that the watcher goroutine takes part: publish || Close, optionally || UncacheCid / Next / a second Close / Direct; every call returns and no receiver goroutine is left. Sequences in which Go itself may legally choose between two answers (Next after Close with a queued announcement, two Direct calls blocked at once) are skipped in (H) and accepted either way in (S)",
+		"(H) and (S): receiver without pubsub (nil host); (P): the receiver with a gossipsub topic on one transport-less libp2p host, a thread publishing one announcement, so that the watcher goroutine takes part: publish || Close, optionally || UncacheCid / Next / a second Close / Direct, the Direct variants also with WithResend(true) (direct announcements republished on a topic that has no other subscriber); every call returns and no receiver goroutine is left. Sequences in which Go itself may legally choose between two answers (Next after Close with a queued announcement, two Direct calls blocked at once) are skipped in (H) and accepted either way in (S)",
 		"instrumented select statements try their cases in source order (a legal restriction of Go's choice)",
 	)
 	defer func() {
@@ -715,7 +731,8 @@ func TestCheck(t *testing.T) {
 		fmt.Sscanf(v, "%g", &budget)
 	}
 	// (P) the receiver with a pubsub topic: the watcher goroutine takes part
-	for pi, extra := range [][]string{nil, {"UncacheCid"}, {"Next"}, {"Close"}, {"Direct"}, {"UncacheCid", "Next"}} {
+	pubsubSets := [][]string{nil, {"UncacheCid"}, {"Next"}, {"Close"}, {"Direct"}, {"UncacheCid", "Next"}, {"Direct", "resend"}, {"Direct", "Next", "resend"}}
+	for pi, extra := range pubsubSets {
 		sc := pubsubScenario(extra)
 		if r.Replaying() {
 			if strings.HasPrefix(r.ReplayKey(), sc.Name+"|") {
@@ -727,7 +744,7 @@ func TestCheck(t *testing.T) {
 		// gets an equal share of 40% of the time budget
 		x := &sched.Explorer{T: t, R: r, Sc: sc, Bound: bound}
 		if budget > 0 {
-			x.Deadline = time.Now().Add(time.Duration(budget * 0.4 / 6 * float64(time.Second)))
+			x.Deadline = time.Now().Add(time.Duration(budget * 0.4 / float64(len(pubsubSets)) * float64(time.Second)))
 		}
 		if done := x.Explore(); done < bound {
 			r.NotExhaustive(fmt.Sprintf("%s: time share used up after completing preemption bound %d of %d", sc.Name, done, bound))
